@@ -97,6 +97,9 @@ class C04(Prop):
         for o in lang.ops_of(f):
             v.info['op:' + o] = 1
         sd = {'text': text, 'vars': names}
+        if aligned and not case.get('more') and not case.get('modular') and len(text) % 10 == 0:
+            sd['structify'] = True           # inputs as fields of one object-typed variable (aligned signals only)
+            v.info['class:struct-inputs'] = 1
         if case.get('modular') and case.get('useed') is None:
             from rtverif.props.c09 import modular_sd
             sd = modular_sd(case['modular'], names)
